@@ -540,6 +540,102 @@ def replay_witness(ctx, c, wit, scen):
     return ok, text
 
 
+
+ALLOC_TEST = '''package simdjson
+
+import (
+	"bytes"
+	"fmt"
+	"runtime"
+	"testing"
+)
+
+// every way the package offers to obtain the parser state (fresh, reused after Parse, reused after ParseND) followed by a parse of a
+// document that needs more index buffers than the ring has slots, with the producer running ahead as far as the channel lets it
+func TestVerifE3Alloc(t *testing.T) {
+	defer runtime.GOMAXPROCS(runtime.GOMAXPROCS(1))
+	var b bytes.Buffer
+	b.WriteByte('[')
+	for i := 0; i < %(n)d; i++ {
+		if i > 0 {
+			b.WriteByte(',')
+		}
+		fmt.Fprintf(&b, "%%d", i)
+	}
+	b.WriteByte(']')
+	doc := b.Bytes()
+	same := true
+	var reuse *ParsedJson
+	for round := 0; round < 4; round++ {
+		pj, err := Parse(doc, reuse)
+		if err != nil {
+			same = false
+			fmt.Printf("VERIF-E3: detail round %%d: valid document rejected: %%v\\n", round, err)
+			break
+		}
+		it := pj.Iter()
+		js, _ := it.MarshalJSON()
+		if !bytes.Equal(js, doc) {
+			same = false
+			fmt.Printf("VERIF-E3: detail round %%d: document differs\\n", round)
+			break
+		}
+		reuse = pj
+	}
+	fmt.Printf("VERIF-E3: same %%v\\n", same)
+}
+'''
+
+
+def alloc_sites(ctx, c):
+    """Q1.alloc: the schedule lemmas analyse the channel allocated in parseMessage; every other allocation site of a channel of index
+    buffers in the package (the reuse path, constructors) must leave the ring discipline intact: capacity + 2 <= slots (one buffer being
+    filled by stage 1, `capacity` queued, one held by stage 2). Scanned on the SSA of the WHOLE package of this run; decided by the solver
+    over the constants found; a site that breaks it is confirmed natively (reuse chain, GOMAXPROCS 1) before it is reported."""
+    files = e2run.harness_files(HFILES)
+    prog, info = e2run.lower(files, ["verifE3_*"], allpkg=True)
+    sites = []
+    for n, fn in prog.funcs.items():
+        if ".verif" in n or PKG not in n:
+            continue
+        for b, i in _ins(fn):
+            if i["op"] != "makechan":
+                continue
+            t = prog.types.get(i.get("t"), {})
+            if t.get("k") != "chan" or t.get("s") != "chan " + PKG + ".indexChan":
+                continue
+            sites.append((n, i.get("pos"), i["size"]))
+    ctx.transitions += sum(len(b["ins"]) for fn in prog.funcs.values() for b in fn["blocks"])
+    if not sites:
+        raise common.Inconclusive("Q1.alloc: no allocation site of the index channel found in the package")
+    bad = []
+    for n, pos, size in sites:
+        if size.get("k") != "c":
+            bad.append((n, pos, None))
+            continue
+        cap = z3.Int("cap")
+        sv = z3.Solver()
+        sv.add(cap == int(size["v"]), z3.Not(z3.And(cap >= 1, cap + 2 <= c["slots"], cap == c["cap"])))
+        ctx.queries += 1
+        if sv.check() != z3.unsat:
+            bad.append((n, pos, int(size["v"])))
+    if not bad:
+        ctx.add_lemma("Q1.alloc", "unsat", bound="%d allocation site(s) of chan indexChan in the whole package: %s" % (len(sites), "; ".join("%s@%s" % (n.rsplit(".", 1)[-1], p) for n, p, _ in sites)),
+                      desc="every allocation site of the index channel has the capacity the schedule lemmas analyse (%d) and capacity + 2 <= ring slots (%d)" % (c["cap"], c["slots"]))
+        return
+    nint = (c["slots"] + 4) * c["limit"]
+    rc, out, kv = RP.run_replay({"zz_verif_e3alloc_test.go": ALLOC_TEST % {"n": nint}}, "TestVerifE3Alloc", timeout=240)
+    ctx.replays += 1
+    what = "; ".join("%s at %s allocates the index channel with capacity %s (analysed: %d; ring slots %d: capacity + 2 must not exceed them, or stage 1 "
+                     "refills a slot that is still queued or held by stage 2)" % (n, p, cp, c["cap"], c["slots"]) for n, p, cp in bad)
+    if kv.get("same") == "false":
+        ctx.add_lemma("Q1.alloc", "sat", bound="%d allocation sites" % len(sites))
+        ctx.report_violation("Q1.alloc: %s; native run (reuse chain, GOMAXPROCS 1, %d integers): %s" % (what, nint, kv.get("detail")), {"lemma": "Q1.alloc", "sites": bad, "native": kv})
+    else:
+        ctx.add_lemma("Q1.alloc", "error", bound="%d allocation sites" % len(sites))
+        ctx.report_inconclusive("Q1.alloc: %s; not reproduced natively (%s)" % (what, (kv or out[-300:])))
+
+
 # ---------------------------------------------------------------------------------------------------------------
 def async_region(ctx, prog, c):
     N = 20 if ctx.tier == "quick" else 40
@@ -911,6 +1007,8 @@ def run(ctx):
     only = ctx.only
     if not only or "Q1.side" in only:
         side_conditions(ctx, prog)
+    if not only or "Q1.alloc" in only:
+        alloc_sites(ctx, c)
     if not only or "Q1.step" in only:
         run_lemmas(ctx, [Lemma("Q1.step", "verifE3_UpdateCharStep", HFILES, expect_reach=("Q1.step",), opts={},
                                desc="one real updateChar (+peekSize) call from an arbitrary consumer state with index < length, any slot: not done, "
